@@ -95,7 +95,15 @@ class FilterExpression(Expression):
                 )
 
         if isinstance(expression, PrefixExpression):
-            operand = self._canonical_string(expression.right, PRECEDENCE_PREFIX)
+            right = expression.right
+            while isinstance(right, FilterExpression):
+                right = right.expression
+
+            operand = self._canonical_string(right, PRECEDENCE_PREFIX)
+            if isinstance(right, (ComparisonExpression, PrefixExpression)):
+                # `!(a == b)` is not `!a == b` and `!!a` is not valid.
+                operand = f"({operand})"
+
             expr = f"!{operand}"
             return f"({expr})" if parent_precedence > PRECEDENCE_PREFIX else expr
 
